@@ -27,6 +27,12 @@ DYNAMIC = {"setattr", "delattr", "globals", "locals", "vars", "exec", "eval", "c
 # decorators known to add no shared state and to leave the decorated body as it is written (anything else - caches, registries,
 # wrappers the analysis cannot see into - fails the obligation)
 OK_DECORATORS = {"property", "staticmethod", "classmethod", "abstractmethod", "overload", "final", "override"}
+# memoisation by the standard library, keyed by *all* arguments and thread-safe: invisible for a function that is itself clean,
+# provided nobody writes through what it returns - the result of a call to such a function is therefore a *shared* object
+# (category "global"): `.update()` on a cached cipher context, a slice store into a cached bytearray ... are shared writes.
+# Accepted on module-level functions and static methods only (a method's cache would be keyed by the identity of `self`,
+# not by the state it reads).
+CACHE_DECORATORS = {"lru_cache", "cache"}
 IMMUTABLE_ANN = {"int", "str", "bytes", "bool", "float", "Optional[int]", "Optional[str]", "Optional[bytes]", "Optional[bool]"}
 RANK = {"fresh": 0, "self": 1, "param": 2, "global": 3, "unknown": 4}
 
@@ -66,6 +72,7 @@ class Analyzer:
         self.module_writes = []       # import-time writes to module-level mutable objects
         self.classes = {}             # class name -> module
         self.imports = {}             # module -> psec modules it imports
+        self.cached = set()           # names of functions memoised with functools.lru_cache / functools.cache
 
     def load(self):
         for fn in sorted(os.listdir(self.pkgdir)):
@@ -170,8 +177,16 @@ class Analyzer:
             return True
         return False
 
+    @staticmethod
+    def decorator_name(d):
+        if isinstance(d, ast.Call):     # @lru_cache(maxsize=32)
+            d = d.func
+        return d.id if isinstance(d, ast.Name) else (d.attr if isinstance(d, ast.Attribute) else None)
+
     def add_fn(self, mod, cls, node, prefix=""):
         qual = ".".join(x for x in (mod, cls, prefix + node.name) if x)
+        if any(self.decorator_name(d) in CACHE_DECORATORS for d in node.decorator_list):
+            self.cached.add(node.name)
         # property setters share the name of the getter: disambiguate
         for d in node.decorator_list:
             if isinstance(d, ast.Attribute) and d.attr in ("setter", "deleter"):
@@ -197,9 +212,11 @@ class Analyzer:
         f.immutable_params = immut
         for i, a in enumerate(allargs):
             env[a] = "self" if (f.cls and i == 0 and a in ("self", "cls")) else "param"
-        for d in node.decorator_list:
-            name = d.id if isinstance(d, ast.Name) else (d.attr if isinstance(d, ast.Attribute) else None)
-            if name not in OK_DECORATORS and name not in ("setter", "deleter", "getter"):
+        names = [self.decorator_name(d) for d in node.decorator_list]
+        for d, name in zip(node.decorator_list, names):
+            if name in CACHE_DECORATORS and (f.cls is None or "staticmethod" in names) and ".<locals>." not in f.qual:
+                continue
+            if isinstance(d, ast.Call) or (name not in OK_DECORATORS and name not in ("setter", "deleter", "getter")):
                 f.unknown.append(f"decorator {ast.unparse(d)}")
         self.globals_declared = set()
         self.block(f, node.body, env)
@@ -223,7 +240,11 @@ class Analyzer:
             return b if b != "fresh" else "fresh"
         if isinstance(expr, ast.IfExp):
             return worst(self.classify(f, expr.body, env), self.classify(f, expr.orelse, env))
-        if isinstance(expr, (ast.Call, ast.BinOp, ast.Constant, ast.JoinedStr, ast.List, ast.Dict, ast.Set, ast.Tuple,
+        if isinstance(expr, ast.Call):
+            fn = expr.func
+            nm = fn.id if isinstance(fn, ast.Name) else (fn.attr if isinstance(fn, ast.Attribute) else None)
+            return "global" if nm in self.cached else "fresh"
+        if isinstance(expr, (ast.BinOp, ast.Constant, ast.JoinedStr, ast.List, ast.Dict, ast.Set, ast.Tuple,
                              ast.ListComp, ast.DictComp, ast.SetComp, ast.GeneratorExp, ast.Compare, ast.BoolOp, ast.UnaryOp)):
             return "fresh"
         return "unknown"
